@@ -49,6 +49,12 @@ pub fn drive(args: &[String]) {
         let probes: Vec<(&str, P)> = vec![
             ("dotted-read-first", P { fns: vec![f("main", vec![setg("r", read("cfg.size"))]), f("setup", vec![setg("cfg", card("CreateTable", vec![]))])], natives: vec![], imports: vec![] }),
             ("dotted-read-deep", P { fns: vec![f("main", vec![setv("x", read("conf.a.b")), setg("out", read("x"))])], natives: vec![], imports: vec![] }),
+            // consecutive strings of which the second is a proper suffix of the first (property names, literals, dotted paths)
+            ("string-suffix", P { fns: vec![f("main", vec![setv("t", card("CreateTable", vec![])), setv("t.foobar", int(1)), setv("t.bar", int(2)),
+                                                            setg("a", strlit("xy")), setg("b", strlit("y")), setg("c", read("t.bar")),
+                                                            setg("d", strlit("value")), setg("e", strlit("value")), setg("g", strlit("")),
+                                                            setv("u", card("CreateTable", vec![])), setv("u.ab", card("CreateTable", vec![])),
+                                                            setg("h", read("u.ab.b"))])], natives: vec![], imports: vec![] }),
             ("dotted-set-first", P { fns: vec![f("main", vec![setv("opts.size.x", int(1)), setg("opts", card("CreateTable", vec![]))])], natives: vec![], imports: vec![] }),
         ];
         for (name, p) in probes {
